@@ -59,6 +59,15 @@ impl MulSpecImpl<F> for F { open spec fn obeys_mul_spec() -> bool { true } open 
 impl core::ops::Mul<F> for F { type Output = F; #[verifier::external_body] fn mul(self, rhs: F) -> F { unimplemented!() } }
 impl DivSpecImpl<F> for F { open spec fn obeys_div_spec() -> bool { true } open spec fn div_req(self, rhs: F) -> bool { true } open spec fn div_spec(self, rhs: F) -> F { f_div(self, rhs) } }
 impl core::ops::Div<F> for F { type Output = F; #[verifier::external_body] fn div(self, rhs: F) -> F { unimplemented!() } }
+// compound assignment (`x += y` is `x = x + y` for f64): offered so that a refactoring between the two forms stays decidable
+impl AddAssignSpecImpl<F> for F { open spec fn obeys_add_assign_spec() -> bool { true } open spec fn add_assign_req(&self, rhs: F) -> bool { true } open spec fn add_assign_spec(&self, rhs: F) -> &F { &f_add(*self, rhs) } }
+impl core::ops::AddAssign<F> for F { #[verifier::external_body] fn add_assign(&mut self, rhs: F) { unimplemented!() } }
+impl SubAssignSpecImpl<F> for F { open spec fn obeys_sub_assign_spec() -> bool { true } open spec fn sub_assign_req(&self, rhs: F) -> bool { true } open spec fn sub_assign_spec(&self, rhs: F) -> &F { &f_sub(*self, rhs) } }
+impl core::ops::SubAssign<F> for F { #[verifier::external_body] fn sub_assign(&mut self, rhs: F) { unimplemented!() } }
+impl MulAssignSpecImpl<F> for F { open spec fn obeys_mul_assign_spec() -> bool { true } open spec fn mul_assign_req(&self, rhs: F) -> bool { true } open spec fn mul_assign_spec(&self, rhs: F) -> &F { &f_mul(*self, rhs) } }
+impl core::ops::MulAssign<F> for F { #[verifier::external_body] fn mul_assign(&mut self, rhs: F) { unimplemented!() } }
+impl DivAssignSpecImpl<F> for F { open spec fn obeys_div_assign_spec() -> bool { true } open spec fn div_assign_req(&self, rhs: F) -> bool { true } open spec fn div_assign_spec(&self, rhs: F) -> &F { &f_div(*self, rhs) } }
+impl core::ops::DivAssign<F> for F { #[verifier::external_body] fn div_assign(&mut self, rhs: F) { unimplemented!() } }
 impl NegSpecImpl for F { open spec fn obeys_neg_spec() -> bool { true } open spec fn neg_req(self) -> bool { true } open spec fn neg_spec(self) -> F { f_neg(self) } }
 impl core::ops::Neg for F { type Output = F; #[verifier::external_body] fn neg(self) -> F { unimplemented!() } }
 impl PartialEqSpecImpl for F { open spec fn obeys_eq_spec() -> bool { true } open spec fn eq_spec(&self, o: &F) -> bool { f_eq(*self, *o) } }
